@@ -85,6 +85,33 @@ def extract(repo):
             put(key, val)
     except Exception as e:  # pragma: no cover
         missing.append(f"parser.py: {e}")
+    # ---- module-level caches (C13): what keys OperatorTemplate.cache, and are the per-circuit IR caches reset at the start of apply()?
+    try:
+        ot = _parse(repo, "pyrates/frontend/template/operator.py")
+        cls = _class(ot, "OperatorTemplate")
+        ap = _func(cls, "apply") if cls else None
+        keyed = None
+        if ap:
+            # expression(s) used as subscript of self.cache
+            names = set()
+            for n in ast.walk(ap):
+                if isinstance(n, ast.Subscript) and isinstance(n.value, ast.Attribute) and n.value.attr == "cache":
+                    sl = n.slice
+                    names.add(ast.unparse(sl))
+            src = {}
+            for n in ast.walk(ap):
+                if isinstance(n, ast.Assign) and len(n.targets) == 1 and isinstance(n.targets[0], ast.Name):
+                    src[n.targets[0].id] = ast.unparse(n.value)
+            exprs = [src.get(x, x) for x in names]
+            keyed = bool(exprs) and all(("self.equations" in e and "self.variables" in e and "self.name" in e) for e in exprs)
+        put("opCacheKeyIncludesDefinition", keyed)
+        ct = _parse(repo, "pyrates/frontend/template/circuit.py")
+        ccls = _class(ct, "CircuitTemplate")
+        capp = _func(ccls, "apply") if ccls else None
+        called = {ast.unparse(n.func) for n in ast.walk(capp) if isinstance(n, ast.Call)} if capp else set()
+        put("irCachesResetAtApply", ("clear_ir_caches" in called and "clear_edge_caches" in called) if capp else None)
+    except Exception as e:  # pragma: no cover
+        missing.append(f"caches: {e}")
     return T, missing
 
 
@@ -157,6 +184,8 @@ def render(T, missing):
     L.append(f"def heunCopiesRhs : Bool := {'true' if T.get('heunCopiesRhs') is True else 'false'}")
     L.append(f"/-- BaseBackend.run builds `times` as np.arange(n)*step (true) or as linspace(0,T,n,endpoint=False)/unknown (false) -/")
     L.append(f"def timeAxisIsArange : Bool := {'true' if T.get('timeAxisKind') == 'arangeStep' else 'false'}")
+    for key in ("opCacheKeyIncludesDefinition", "irCachesResetAtApply"):
+        L.append(f"def {key} : Bool := {'true' if T.get(key) is True else 'false'}")
     for key in ("replaceAllowedFollowOps", "varInExprFollowOps"):
         v = T.get(key)
         L.append(f"def {key} : String := {lean_str(v if isinstance(v, str) else '')}")
